@@ -200,7 +200,7 @@ fn observe(rec: &mut Rec, g: &Global, tr: &Triple, clients: usize, rng: &mut Cha
 /// enumerated neighbour families around a base triple
 fn neighbours(rng: &mut ChaCha20Rng, idx: u64) -> Vec<Triple> {
   let mut out: Vec<Triple> = Vec::new();
-  match idx % 6 {
+  match idx % 8 {
     0 => {
       // every split point of a fixed concatenation m||e (incl. empty components)
       let cat = rand_bytes_in(rng, 0..13);
@@ -273,6 +273,55 @@ fn neighbours(rng: &mut ChaCha20Rng, idx: u64) -> Vec<Triple> {
         out.push((m2, e2, t));
       }
     }
+    5 => {
+      // trailing digits of the epoch moved into a TEXT rendering of the threshold
+      // (decimal / hex), and back: every split of a digit string
+      let prefix: Vec<u8> = if rng.gen_bool(0.5) { vec![] } else { b"2024-".to_vec() };
+      let m = rand_bytes_in(rng, 0..10);
+      let hexmode = rng.gen_bool(0.3);
+      let len = rng.gen_range(2..=6);
+      let digits: Vec<u8> = (0..len)
+        .map(|i| {
+          let d = if i == 0 { rng.gen_range(1..10) } else { rng.gen_range(0..if hexmode { 16 } else { 10 }) };
+          b"0123456789abcdef"[d]
+        })
+        .collect();
+      for i in 0..len {
+        let tail = std::str::from_utf8(&digits[i..]).unwrap();
+        // the text must be the canonical rendering of the number (no leading zeros)
+        if tail.len() > 1 && tail.starts_with('0') {
+          continue;
+        }
+        if let Ok(t) = u32::from_str_radix(tail, if hexmode { 16 } else { 10 }) {
+          let mut e = prefix.clone();
+          e.extend_from_slice(&digits[..i]);
+          out.push((m.clone(), e, t));
+        }
+      }
+      // and the all-digits epoch with threshold 0
+      let mut e = prefix.clone();
+      e.extend_from_slice(&digits);
+      out.push((m.clone(), e, 0));
+    }
+    6 => {
+      // long measurements that differ in a single byte, at every position class
+      let l = *pick(rng, &[65usize, 100, 128, 129, 200, 300]);
+      let base = rand_bytes(rng, l);
+      let e = rand_bytes_in(rng, 0..6);
+      let t = rng.gen_range(1..6);
+      out.push((base.clone(), e.clone(), t));
+      for pos in [0usize, 31, 32, 63, 64, 65, 99, 127, 128, 165, 166, 199, l - 1] {
+        if pos < l {
+          let mut v = base.clone();
+          v[pos] ^= 1 << rng.gen_range(0..8);
+          out.push((v, e.clone(), t));
+        }
+      }
+      out.push((base[..l - 1].to_vec(), e.clone(), t));
+      let mut longer = base.clone();
+      longer.push(0);
+      out.push((longer, e.clone(), t));
+    }
     _ => {
       // unrelated base triples (also long inputs)
       for _ in 0..4 {
@@ -288,7 +337,7 @@ fn neighbours(rng: &mut ChaCha20Rng, idx: u64) -> Vec<Triple> {
 
 fn family(rec: &mut Rec, _ctx: &Ctx, idx: u64, rng: &mut ChaCha20Rng, g: &Global) {
   let trs = neighbours(rng, idx);
-  rec.case(&("family", idx % 6, trs.len()));
+  rec.case(&("family", idx % 8, trs.len()));
   for tr in &trs {
     // dealing costs O(t): above 1024 only the randomness is observed
     let deal = tr.2 >= 1 && tr.2 <= 1024 && (tr.2 <= 8 || idx % 40 == 2);
@@ -296,8 +345,8 @@ fn family(rec: &mut Rec, _ctx: &Ctx, idx: u64, rng: &mut ChaCha20Rng, g: &Global
     rec.case(&(tr.0.clone(), tr.1.clone(), tr.2));
     observe(rec, g, tr, clients, rng, deal);
   }
-  if idx < 6 {
-    rec.sample(json!({"family": idx % 6, "triples": trs.iter().take(5).map(tj).collect::<Vec<_>>() }));
+  if idx < 8 {
+    rec.sample(json!({"family": idx % 8, "triples": trs.iter().take(5).map(tj).collect::<Vec<_>>() }));
   }
 }
 
